@@ -69,6 +69,7 @@ pub fn run(out: &str, writers: usize, n: usize, stream: u64, bursts: usize) {
                 log.push((i, json!({"ev":"inv","k":"push","t":t})));
                 log.push((r, json!({"ev":"res","k":"push","t":t})));
             };
+            let mut scratch: Vec<Event> = Vec::new();
             // phase 0 (before any report): observations that belong to the +inf bucket, published
             for _ in 0..20 {
                 op(&mut log, 1, 1000, 1);
@@ -88,6 +89,16 @@ pub fn run(out: &str, writers: usize, n: usize, stream: u64, bursts: usize) {
                 op(&mut log, e, m, cnt);
                 if i % 37 == 36 {
                     do_push(&mut log);
+                }
+                if i % 5 == 4 {
+                    // a thread also REGISTERS new events while reports are being collected (its event table is being
+                    // written): the judged events of this thread must stay in every report all the same
+                    let tmp = Event::builder().name(format!("tmp_{t}_{i}")).build();
+                    tmp.observe_once();
+                    scratch.push(tmp);
+                    if scratch.len() > 64 {
+                        scratch.clear();
+                    }
                 }
             }
             do_push(&mut log);
